@@ -147,7 +147,7 @@ def one_case(acc, plan, case, rowname, wordrepr):
             return res
         for key in known.match(plan.prop, res, case):
             r2 = diff.run(case, quirks=(key,))
-            if not r2.diffs and r2.status == res.status:
+            if not r2.diffs and r2.status not in ('unpred', 'skip', 'host-error'):
                 acc.known_hit(key)
                 return res
         b = '%s:%s:%s:%s%s' % (plan.prop, row, res.status, 'condfail:' if res.cond_passed is False else '', sig(res.diffs))
